@@ -110,6 +110,29 @@ func c01KeyShape(v ssa.Value, fr *c01Frame, depth int) (c01Shape, bool) {
 		if fr != nil && fr.call.Call.StaticCallee() == fn && idx >= 0 && idx < len(fr.call.Call.Args) {
 			return c01KeyShape(fr.call.Call.Args[idx], fr.up, depth+1)
 		}
+		if fr == nil && idx >= 0 && !gAddrTaken[fn] {
+			// the key is built inside a helper / method (s.has(node, id)): the shape the callers pass, if they agree
+			var res c01Shape
+			sites := gSites[fn]
+			for k, s := range sites {
+				cc := s.Common()
+				if idx >= len(cc.Args) {
+					return out, false
+				}
+				sh, ok := c01KeyShape(cc.Args[idx], nil, depth+1)
+				if !ok || (k > 0 && sh.String() != res.String()) {
+					return out, false
+				}
+				if k == 0 {
+					res = sh
+				} else {
+					res = join(res, c01Shape{owners: sh.owners})
+				}
+			}
+			if len(sites) > 0 {
+				return res, true
+			}
+		}
 	case *ssa.Call:
 		n := calleeName(&x.Call)
 		switch n {
@@ -510,451 +533,4 @@ func c01StageRegionAll(f *ssa.Function) []*ssa.Function {
 	}
 	add(f, 0)
 	return out
-}
-
-// ---- B1 / B2: the updater -------------------------------------------------------------------------------------------
-
-// c01RecvRole: the registry channel ("WatchServices" / "WatchManual") a received value comes from.
-func c01ChanRole(ch ssa.Value) string {
-	role := ""
-	derives(ch, func(x ssa.Value) bool {
-		if call, ok := x.(*ssa.Call); ok && call.Call.IsInvoke() {
-			switch call.Call.Method.Name() {
-			case "WatchServices", "WatchManual":
-				role = call.Call.Method.Name()
-				return true
-			}
-		}
-		return false
-	})
-	return role
-}
-
-// c01TextRole: which registry channel(s) the text v was received from ("?" if anything else flows into it).
-func c01TextRole(v ssa.Value) string {
-	roles := map[string]bool{}
-	seen := map[ssa.Value]bool{}
-	var walk func(x ssa.Value, d int)
-	walk = func(x ssa.Value, d int) {
-		if x == nil || seen[x] {
-			return
-		}
-		seen[x] = true
-		if d > 30 {
-			roles["?"] = true
-			return
-		}
-		switch y := x.(type) {
-		case *ssa.Phi:
-			for _, e := range y.Edges {
-				walk(e, d+1)
-			}
-		case *ssa.ChangeType:
-			walk(y.X, d+1)
-		case *ssa.Const:
-		case *ssa.Extract:
-			sel, ok := y.Tuple.(*ssa.Select)
-			if !ok || y.Index < 2 {
-				roles["?"] = true
-				return
-			}
-			ri, r := 0, ""
-			for _, st := range sel.States {
-				if st.Dir == types.RecvOnly {
-					if ri == y.Index-2 {
-						r = c01ChanRole(st.Chan)
-					}
-					ri++
-				}
-			}
-			if r == "" {
-				r = "?"
-			}
-			roles[r] = true
-		case *ssa.UnOp:
-			switch {
-			case y.Op == token.ARROW:
-				r := c01ChanRole(y.X)
-				if r == "" {
-					r = "?"
-				}
-				roles[r] = true
-			case y.Op == token.MUL:
-				if a, ok := y.X.(*ssa.Alloc); ok {
-					for _, sv := range c01StoresInto(a) {
-						walk(sv, d+1)
-					}
-					return
-				}
-				if fa, ok := y.X.(*ssa.FieldAddr); ok {
-					// a field of a local state struct: what is stored into that field
-					if a, ok := fa.X.(*ssa.Alloc); ok {
-						n := 0
-						for _, r := range *a.Referrers() {
-							z, ok := r.(*ssa.FieldAddr)
-							if !ok || z.Field != fa.Field {
-								continue
-							}
-							for _, r2 := range *z.Referrers() {
-								if st, ok := r2.(*ssa.Store); ok && st.Addr == z {
-									n++
-									walk(st.Val, d+1)
-								}
-							}
-						}
-						if n > 0 {
-							return
-						}
-					}
-					roles["?"] = true
-					return
-				}
-				if fv, ok := y.X.(*ssa.FreeVar); ok {
-					// a variable of the enclosing function
-					found := false
-					if fn := fv.Parent(); fn != nil && fn.Parent() != nil {
-						idx := -1
-						for k, q := range fn.FreeVars {
-							if q == fv {
-								idx = k
-							}
-						}
-						eachInstr(fn.Parent(), func(i ssa.Instruction) {
-							if mc, ok := i.(*ssa.MakeClosure); ok && mc.Fn == fn && idx >= 0 && idx < len(mc.Bindings) {
-								if a, ok := mc.Bindings[idx].(*ssa.Alloc); ok {
-									found = true
-									for _, sv := range c01StoresInto(a) {
-										walk(sv, d+1)
-									}
-								}
-							}
-						})
-					}
-					if !found {
-						roles["?"] = true
-					}
-					return
-				}
-				roles["?"] = true
-			default:
-				roles["?"] = true
-			}
-		case *ssa.Parameter:
-			fn := y.Parent()
-			sites := gSites[fn]
-			k := c01ParamIndex(y)
-			if len(sites) == 0 || !onlyStaticallyCalled(fn) || k < 0 {
-				roles["?"] = true
-				return
-			}
-			for _, s := range sites {
-				if cc := s.Common(); k < len(cc.Args) {
-					walk(cc.Args[k], d+1)
-				}
-			}
-		default:
-			roles["?"] = true
-		}
-	}
-	walk(v, 0)
-	if len(roles) == 1 {
-		for r := range roles {
-			return r
-		}
-	}
-	return "?"
-}
-
-// c01Op is an operation on the table buffer, with the chain of call instructions that leads to it from the updater.
-type c01Op struct {
-	kind  string // reset, write, parse
-	role  string // for writes: WatchServices, WatchManual, "" (constant), "?"
-	chain []ssa.Instruction
-	seq   int // order among the pieces of one concatenation (operations with the same chain)
-}
-
-// c01Before: a is executed before b on every path to b (compared in the first function where their chains differ).
-func c01Before(a, b c01Op) bool {
-	if len(a.chain) == len(b.chain) {
-		same := true
-		for k := range a.chain {
-			if a.chain[k] != b.chain[k] {
-				same = false
-			}
-		}
-		if same {
-			return a.seq < b.seq
-		}
-	}
-	for k := 0; k < len(a.chain) && k < len(b.chain); k++ {
-		if a.chain[k] != b.chain[k] {
-			if a.chain[k].Parent() != b.chain[k].Parent() {
-				return false
-			}
-			return dominatesInstr(a.chain[k], b.chain[k])
-		}
-	}
-	return false
-}
-
-func runC01B1(c *Ctx) {
-	// the updater: the function of package main that selects over the two registry channels
-	var upd *ssa.Function
-	var sel *ssa.Select
-	for _, f := range c.fnsWhere("main", func(*ssa.Function) bool { return true }) {
-		eachInstr(f, func(i ssa.Instruction) {
-			s, ok := i.(*ssa.Select)
-			if !ok {
-				return
-			}
-			svc, man := false, false
-			for _, st := range s.States {
-				if st.Dir != types.RecvOnly {
-					continue
-				}
-				switch c01ChanRole(st.Chan) {
-				case "WatchServices":
-					svc = true
-				case "WatchManual":
-					man = true
-				}
-			}
-			if svc && man && upd == nil {
-				upd, sel = f, s
-			}
-		})
-	}
-	if upd == nil {
-		c.undecided("C01.B1", "anchor|table updater (by role)", "no function of package main selects over the channels of WatchServices() and WatchManual()")
-		return
-	}
-	reg := c.region(upd)
-	inReg := map[*ssa.Function]bool{}
-	for _, f := range reg {
-		inReg[f] = true
-	}
-	// chain from the updater down to an instruction
-	var chainOf func(i ssa.Instruction, d int) []ssa.Instruction
-	chainOf = func(i ssa.Instruction, d int) []ssa.Instruction {
-		f := i.Parent()
-		if f == upd || d > 4 {
-			return []ssa.Instruction{i}
-		}
-		var sites []ssa.CallInstruction
-		for _, s := range gSites[f] {
-			if inReg[s.Parent()] {
-				sites = append(sites, s)
-			}
-		}
-		if len(sites) != 1 {
-			return []ssa.Instruction{i}
-		}
-		return append(chainOf(sites[0], d+1), i)
-	}
-	// the parse
-	var parses []*ssa.Call
-	eachInstrOf(reg, func(f *ssa.Function, i ssa.Instruction) {
-		if call, ok := i.(*ssa.Call); ok {
-			if sc := call.Call.StaticCallee(); sc != nil && funcName(sc) == repoMod+"/route.NewTable" {
-				parses = append(parses, call)
-			}
-		}
-	})
-	if len(parses) == 0 {
-		c.undecided("C01.B1", fnKey(upd)+"|NewTable call", "the updater (and its helpers) never calls route.NewTable")
-		return
-	}
-	for _, parse := range parses {
-		bufRoot := c01ResolveUp(parse.Call.Args[0])
-		var ops []c01Op
-		pop := c01Op{kind: "parse", chain: chainOf(parse, 0)}
-		// (a) the buffer is a bytes.Buffer that is reset and written
-		eachInstrOf(reg, func(f *ssa.Function, i ssa.Instruction) {
-			cc := callCommon(i)
-			if cc == nil || len(cc.Args) == 0 {
-				return
-			}
-			n := calleeName(cc)
-			switch n {
-			case "(*bytes.Buffer).Reset", "(*bytes.Buffer).Truncate":
-				if c01ResolveUp(cc.Args[0]) == bufRoot {
-					ops = append(ops, c01Op{kind: "reset", chain: chainOf(i, 0)})
-				}
-			case "(*bytes.Buffer).WriteString", "(*bytes.Buffer).Write", "(*bytes.Buffer).WriteByte", "(*bytes.Buffer).WriteRune":
-				if c01ResolveUp(cc.Args[0]) != bufRoot {
-					return
-				}
-				if _, isK := c01Strip(cc.Args[1]).(*ssa.Const); isK {
-					return
-				}
-				ops = append(ops, c01Op{kind: "write", role: c01TextRole(c01TextOf(cc.Args[1])), chain: chainOf(i, 0)})
-			case "fmt.Fprint", "fmt.Fprintf", "fmt.Fprintln", "io.WriteString":
-				if c01ResolveUp(stripIface(cc.Args[0])) != bufRoot {
-					return
-				}
-				var texts []ssa.Value
-				if n == "io.WriteString" {
-					texts = []ssa.Value{cc.Args[1]}
-				} else {
-					texts = c01Variadic(cc.Args[len(cc.Args)-1])
-				}
-				for k, t := range texts {
-					if _, isK := c01Strip(t).(*ssa.Const); isK {
-						continue
-					}
-					ops = append(ops, c01Op{kind: "write", role: c01TextRole(c01TextOf(t)), chain: chainOf(i, 0), seq: k})
-				}
-			}
-		})
-		// (b) the buffer is made from a text: bytes.NewBufferString(svc + "\n" + man)
-		if mk, ok := bufRoot.(*ssa.Call); ok {
-			if n := calleeName(&mk.Call); n == "bytes.NewBufferString" || n == "bytes.NewBuffer" {
-				// the candidate text is built where it is concatenated (or, at the latest, where the buffer is made)
-				text := c01TextOf(c01ResolveUp(c01TextOf(mk.Call.Args[0]))) // the text may arrive as a helper's parameter
-				var at ssa.Instruction = mk
-				if cat, ok := text.(*ssa.BinOp); ok {
-					at = cat
-				}
-				ops = append(ops, c01Op{kind: "reset", chain: chainOf(at, 0), seq: -1})
-				for k, piece := range c01Pieces(text) {
-					if _, isK := piece.(*ssa.Const); isK {
-						continue
-					}
-					// pieces of one expression are ordered by their position in it
-					ops = append(ops, c01Op{kind: "write", role: c01TextRole(piece), chain: chainOf(at, 0), seq: k})
-				}
-			}
-		}
-		var svcW, manW, resets []c01Op
-		for _, op := range ops {
-			switch {
-			case op.kind == "reset":
-				resets = append(resets, op)
-			case op.role == "WatchServices":
-				svcW = append(svcW, op)
-			case op.role == "WatchManual":
-				manW = append(manW, op)
-			default:
-				last := op.chain[len(op.chain)-1]
-				c.check("C01.B1", fnKey(upd)+"|table text only from the registry channels", last.Pos(), false, "a text written into the table buffer does not come from WatchServices()/WatchManual()")
-			}
-		}
-		before := c01Before
-		ok := len(svcW) >= 1 && len(manW) >= 1
-		for _, s := range svcW {
-			for _, m := range manW {
-				if !before(s, m) {
-					ok = false
-				}
-			}
-		}
-		c.check("C01.B1", fnKey(upd)+"|service text before manual text", parse.Pos(), ok,
-			"the operator's manual route commands must be applied on top of the service routes: the buffer parsed by NewTable must contain the service text first and the manual text after it (route del/weight overrides only work in that order)")
-		okReset := len(resets) >= 1
-		for _, w := range append(append([]c01Op{}, svcW...), manW...) {
-			dom := false
-			for _, r := range resets {
-				if before(r, w) {
-					dom = true
-				}
-			}
-			if !dom || !before(w, pop) {
-				okReset = false
-			}
-		}
-		c.check("C01.B1", fnKey(upd)+"|buffer reset, then written, then parsed", parse.Pos(), okReset,
-			"the buffer must be Reset before the two texts are written and both writes must precede NewTable; otherwise texts of earlier updates accumulate (instances that left the registry keep their routes)")
-
-		// B2: every update received from either registry channel reaches the rebuild: from the select, the loop head
-		// is not reachable without passing the reset of the buffer (the only legitimate skip is the unchanged-text
-		// comparison after it)
-		var lp *loop
-		for _, l := range loopsOf(upd) {
-			if l.Body[sel.Block()] && (lp == nil || len(l.Body) < len(lp.Body)) {
-				lp = l
-			}
-		}
-		if lp == nil || len(resets) == 0 {
-			c.undecided("C01.B2", fnKey(upd)+"|every registry update is considered for a rebuild", "the select over the registry channels is not inside a loop, or the rebuild of the candidate text was not found")
-			continue
-		}
-		isRebuild := map[ssa.Instruction]bool{}
-		for _, r := range resets {
-			isRebuild[r.chain[0]] = true // the instruction of the updater that leads to the reset
-		}
-		pass := func(i ssa.Instruction) bool {
-			if !isRebuild[i] {
-				return false
-			}
-			// the call in the updater must perform the reset on all of its paths
-			for _, r := range resets {
-				if r.chain[0] != i {
-					continue
-				}
-				if len(r.chain) == 1 {
-					return true
-				}
-				target := r.chain[len(r.chain)-1]
-				if call, ok := i.(*ssa.Call); ok {
-					if sc := call.Call.StaticCallee(); sc != nil && mustExec(unwrap(sc), func(j ssa.Instruction) bool { return j == target }, 0) {
-						return true
-					}
-				}
-			}
-			return false
-		}
-		skip := false
-		type item struct {
-			b   *ssa.BasicBlock
-			idx int
-		}
-		seen := map[*ssa.BasicBlock]bool{}
-		stack := []item{{sel.Block(), instrIndex(sel) + 1}}
-		for len(stack) > 0 && !skip {
-			it := stack[len(stack)-1]
-			stack = stack[:len(stack)-1]
-			blocked := false
-			for k := it.idx; k < len(it.b.Instrs); k++ {
-				if pass(it.b.Instrs[k]) {
-					blocked = true
-					break
-				}
-			}
-			if blocked {
-				continue
-			}
-			for _, sx := range it.b.Succs {
-				if sx == lp.Head {
-					skip = true
-				} else if lp.Body[sx] && !seen[sx] {
-					seen[sx] = true
-					stack = append(stack, item{sx, 0})
-				}
-			}
-		}
-		c.check("C01.B2", fnKey(upd)+"|every registry update is considered for a rebuild", sel.Pos(), !skip,
-			"an update received from the service or the manual channel can return to the select without rebuilding the candidate text: operator overrides (or service changes) received on that path are never applied — e.g. KV edits while no tagged instance is healthy")
-	}
-}
-
-// c01TextOf strips the conversion string <-> []byte.
-func c01TextOf(v ssa.Value) ssa.Value {
-	for {
-		switch x := v.(type) {
-		case *ssa.Convert:
-			v = x.X
-		case *ssa.ChangeType:
-			v = x.X
-		default:
-			return v
-		}
-	}
-}
-
-// c01Pieces flattens a concatenation.
-func c01Pieces(v ssa.Value) []ssa.Value {
-	if b, ok := v.(*ssa.BinOp); ok && b.Op == token.ADD {
-		return append(c01Pieces(b.X), c01Pieces(b.Y)...)
-	}
-	return []ssa.Value{v}
 }
